@@ -297,6 +297,12 @@ where
 				ValueType::Arraylike { element_type: b } => a.is_like(b),
 				_ => self == other,
 			},
+			// A structure is like the not yet resolved structure whose member
+			// is being accessed (`a[i].member = value`).
+			ValueType::Struct { .. } | ValueType::Word { .. } =>
+			{
+				self.can_be_concretization_of(other)
+			}
 			_ => self == other,
 		}
 	}
